@@ -53,3 +53,23 @@ chk('C17',
     'Trusted: ref/peakfit.py (closed forms, fixed Weyl-sequence noise); scipy chi2; AIC convention of the code; uniform and mildly non-uniform grids only.',
     'explicit enumeration of fitting scenarios on the real fit_peaks/remove_peaks; independent recomputation as reference model',
     'DESIGN.md section 6 C17')
+chk('C09',
+    'Part A: full product, for ~60 registered public entry points (all conversion/geometry/gravity kernels, convert, accessors, DiskChopper, filtering, chopper-cascade frames, diagram, peak models/fit/remove, absorption, io), of the per-argument aliasing alphabet (unit x dtype x shape incl. the exact unit/dtype each function converts to): deep bitwise fingerprint of every argument before == after. Part B: breadth-first enumeration of all event sequences (factory/lookup call or mutation of an earlier result through its public surface) up to depth 3 within each sharing group (graph factories, bundled-table lookups, model combinators, CIF combinators) and depth 2 across groups, replayed from a reset state; after every prefix the fresh-observation fingerprint equals the initial one and unmutated earlier results equal their hand-out fingerprint.',
+    'Trusted: mc/snapshot.py fingerprint; whether an output may alias an input is not judged; mutations only through public attributes; caches cleared / graph modules reloaded between histories.',
+    'explicit-state breadth-first search over call/mutation histories on the real objects + exhaustive aliasing grid; bitwise snapshot oracle',
+    'DESIGN.md section 6 C09')
+chk('C15',
+    'Full product of value alphabet (subnormal..1.8e308, signed zero) x variance alphabet x row counts 1..1000 (thorough 1e4) x header menu (newlines, #, CR, numeric-looking) x coordinate layouts x 4 targets, plus every one- and two-defect refusal combination: coordinate and values bitwise, variances within 4 ulp (bit-pattern distance), shape (n,), refusal writes nothing, every header line commented.',
+    'Trusted: numpy float parsing; ulp distance on bit patterns.',
+    'explicit enumeration of inputs on the real save_xye/load_xye round trip; bitwise/ulp oracle',
+    'DESIGN.md section 6 C15')
+chk('C19',
+    'All series of length 2..5 (thorough 6) over a six-step slope alphabet placed on, just beside and far from the tolerance, with coordinate-step variants, min_n_points 1..n and three coordinate dtypes, plus planted long series: bins compared with an exact list-based plateau model (Fractions); collapse mean/interval; in-phase filter vs exact rational predicate over ratio and deviation alphabets.',
+    'Trusted: ref/series.py; calls that raise from the total-drift guard are counted not judged (property constrains returning calls); uuid label replaced by a fixed label during the short-series enumeration (scipp label table limit).',
+    'explicit enumeration of all short series on the real find_plateaus/collapse/filter; exact rational reference model',
+    'DESIGN.md section 6 C19')
+chk('C20',
+    'Every row of the three bundled tables (371 + 118 + 3557) for both lookups, cold and warm cache, plus a near-miss menu (~60 name edits) on every small-table name and every 10th mass row (thorough: all), and the attenuation law over materials x wavelength/density units: values, variances, units, None for blanks, z, mass/weight presence, rejection of any name without an exactly matching row.',
+    'Trusted: csv module reading of the bundled files (ref/tables.py); variance tolerance 2 ulp of std**2.',
+    'complete enumeration of table rows and near-miss names on the real lookups; csv reference model',
+    'DESIGN.md section 6 C20')
